@@ -5,6 +5,7 @@ mod dsl;
 mod legacy;
 mod mt;
 mod sched;
+mod time;
 
 use std::io::{BufRead, BufWriter, Write};
 
@@ -35,6 +36,23 @@ fn main() {
             }
             w.flush().unwrap();
             eprintln!("ran {n} cases");
+        }
+        Some("time") => {
+            let inp = std::fs::File::open(&args[2]).expect("open cases");
+            let out = std::fs::File::create(&args[3]).expect("create trace");
+            let mut w = BufWriter::new(out);
+            for line in std::io::BufReader::new(inp).lines() {
+                let line = line.unwrap();
+                if line.trim().is_empty() {
+                    continue;
+                }
+                let case: time::TCase = serde_json::from_str(&line).expect("bad timer case");
+                for l in time::run_tcase(&case) {
+                    serde_json::to_writer(&mut w, &l).unwrap();
+                    w.write_all(b"\n").unwrap();
+                }
+            }
+            w.flush().unwrap();
         }
         Some("mt") => {
             // mt <cases.ndjson> <out.ndjson>: forced interleavings, one record per case
